@@ -53,6 +53,8 @@ func writtenGlobals(dir string, entries []string) ([]string, error) {
 	type fn struct {
 		body   *ast.BlockStmt
 		params map[string]bool
+		recv   string // receiver name of a method with a pointer receiver ("" otherwise)
+		method bool
 	}
 	funcs := map[string][]fn{}
 	for _, f := range files {
@@ -61,7 +63,14 @@ func writtenGlobals(dir string, entries []string) ([]string, error) {
 			if !ok || fd.Body == nil {
 				continue
 			}
-			funcs[fd.Name.Name] = append(funcs[fd.Name.Name], fn{body: fd.Body})
+			f0 := fn{body: fd.Body}
+			if fd.Recv != nil && len(fd.Recv.List) == 1 {
+				f0.method = true
+				if _, ptr := fd.Recv.List[0].Type.(*ast.StarExpr); ptr && len(fd.Recv.List[0].Names) == 1 {
+					f0.recv = fd.Recv.List[0].Names[0].Name
+				}
+			}
+			funcs[fd.Name.Name] = append(funcs[fd.Name.Name], f0)
 		}
 		// function literals in package-level variable initialisers (e.g. newMesgFuncs)
 		for _, d := range f.Decls {
@@ -117,6 +126,120 @@ func writtenGlobals(dir string, entries []string) ([]string, error) {
 		})
 		return loc
 	}
+	// rootIdent: the identifier an addressable expression is rooted at (x, x.f, x[i], *x, (x))
+	rootIdent := func(e ast.Expr) (string, bool) {
+		for {
+			switch x := e.(type) {
+			case *ast.Ident:
+				return x.Name, true
+			case *ast.SelectorExpr:
+				e = x.X
+			case *ast.IndexExpr:
+				e = x.X
+			case *ast.StarExpr:
+				e = x.X
+			case *ast.ParenExpr:
+				e = x.X
+			default:
+				return "", false
+			}
+		}
+	}
+	// pointerUses: how a local pointer `name` is used inside `body`: written through (assignment or
+	// ++/-- rooted at it), escaping (passed on, returned, stored, re-addressed), or only read (field
+	// access, indexing, dereference, calls of methods that themselves only read through their
+	// receiver).  Anything but "only read" counts as a possible write.
+	var methodWrites func(name string, depth int) bool
+	pointerMayWrite := func(body *ast.BlockStmt, name string, depth int) bool {
+		bad := false
+		var stack []ast.Node
+		ast.Inspect(body, func(n ast.Node) bool {
+			if n == nil {
+				stack = stack[:len(stack)-1]
+				return true
+			}
+			switch x := n.(type) {
+			case *ast.AssignStmt:
+				for _, l := range x.Lhs {
+					if id, ok := l.(*ast.Ident); ok && id.Name == name {
+						continue // (re)binding the variable itself is not a write through it
+					}
+					if r, ok := rootIdent(l); ok && r == name {
+						bad = true
+					}
+				}
+			case *ast.IncDecStmt:
+				if r, ok := rootIdent(x.X); ok && r == name {
+					bad = true
+				}
+			case *ast.Ident:
+				if x.Name == name && len(stack) > 0 {
+					switch par := stack[len(stack)-1].(type) {
+					case *ast.SelectorExpr:
+						if par.X == ast.Expr(x) {
+							// field read, or a method call: look at the callee
+							if len(stack) > 1 {
+								if call, ok := stack[len(stack)-2].(*ast.CallExpr); ok && call.Fun == ast.Expr(par) {
+									if methodWrites(par.Sel.Name, depth+1) {
+										bad = true
+									}
+								}
+							}
+						} else {
+							bad = true
+						}
+					case *ast.IndexExpr:
+						if par.X != ast.Expr(x) {
+							bad = true
+						}
+					case *ast.StarExpr, *ast.ParenExpr:
+					case *ast.AssignStmt:
+						isLhs := false
+						for _, l := range par.Lhs {
+							if l == ast.Expr(x) {
+								isLhs = true
+							}
+						}
+						if !isLhs {
+							bad = true // copied into another variable: escapes
+						}
+					case *ast.BinaryExpr:
+						// comparison with nil and the like
+					default:
+						bad = true // argument, return value, composite literal, &x, ...
+					}
+				}
+			}
+			stack = append(stack, n)
+			return true
+		})
+		return bad
+	}
+	methodSeen := map[string]bool{}
+	methodWrites = func(name string, depth int) bool {
+		if depth > 6 {
+			return true
+		}
+		key := name
+		if methodSeen[key] {
+			return false // already being examined (recursion): decided by the outer call
+		}
+		methodSeen[key] = true
+		defer delete(methodSeen, key)
+		fs, ok := funcs[name]
+		if !ok {
+			return true // not a method of this package (or unknown): assume the worst
+		}
+		for _, f := range fs {
+			if !f.method {
+				return true
+			}
+			if f.recv != "" && pointerMayWrite(f.body, f.recv, depth) {
+				return true
+			}
+		}
+		return false
+	}
 	written := map[string]bool{}
 	seen := map[string]bool{}
 	var visit func(name string)
@@ -148,6 +271,30 @@ func writtenGlobals(dir string, entries []string) ([]string, error) {
 					}
 				}
 			}
+			// p := &G[...] (or p = &G...) with p a local variable: the address does not count as a write
+			// of G by itself; what is done through p decides
+			handled := map[ast.Node]bool{}
+			ast.Inspect(f.body, func(n ast.Node) bool {
+				as, ok := n.(*ast.AssignStmt)
+				if !ok || len(as.Lhs) != 1 || len(as.Rhs) != 1 {
+					return true
+				}
+				id, ok := as.Lhs[0].(*ast.Ident)
+				if !ok || globals[id.Name] && !loc[id.Name] {
+					return true
+				}
+				ue, ok := as.Rhs[0].(*ast.UnaryExpr)
+				if !ok || ue.Op != token.AND {
+					return true
+				}
+				if g, ok := isGlobal(ue.X); ok {
+					handled[ue] = true
+					if pointerMayWrite(f.body, id.Name, 0) {
+						written[g] = true
+					}
+				}
+				return true
+			})
 			ast.Inspect(f.body, func(n ast.Node) bool {
 				switch x := n.(type) {
 				case *ast.AssignStmt:
@@ -163,7 +310,7 @@ func writtenGlobals(dir string, entries []string) ([]string, error) {
 						written[g] = true
 					}
 				case *ast.UnaryExpr:
-					if x.Op == token.AND {
+					if x.Op == token.AND && !handled[x] {
 						if g, ok := isGlobal(x.X); ok {
 							written[g] = true
 						}
